@@ -549,6 +549,12 @@ type runner struct {
 	perSection map[string]int
 	pool       []string // case labels of parse.go
 	poolAll    bool
+	// second-order mutations: the first mutant of a (base, section, kind) becomes a base of its
+	// own on which the same kind of edit is applied at every OTHER site of that section, so that
+	// two sibling mappings carry the same defect (two diagnostics with one text) in one document
+	filter  *mutation
+	second  map[string]bool
+	second2 bool // also for the corpus workflows (thorough)
 }
 
 // baseOracle: on an unmutated workflow the keys reported as unexpected are
@@ -838,6 +844,9 @@ func (r *runner) base(name string, src []byte, wantCases func(mu *mutation) bool
 		keys := keysOf(s.m)
 		n := len(keys)
 		var mus []mutation
+		if r.filter != nil && (s.sec.name != r.filter.Section || r.filter.Kind == "foreign" && countOf(keys, r.filter.Key) > 0) {
+			continue
+		}
 		if s.sec.closed {
 			for j := 0; j <= n; j++ {
 				mus = append(mus, mutation{Kind: "foreign", Section: s.sec.name, Path: s.path, Index: j, Key: "zz-foreign-key"})
@@ -897,6 +906,9 @@ func (r *runner) base(name string, src []byte, wantCases func(mu *mutation) bool
 			}
 		}
 		for _, mu := range mus {
+			if r.filter != nil && (mu.Kind != r.filter.Kind || mu.Kind == "foreign" && mu.Key != r.filter.Key) {
+				continue
+			}
 			var lines []string
 			if mu.Kind == "remove" {
 				lines = td.removePair(all, s, mu.Index)
@@ -950,6 +962,19 @@ func (r *runner) base(name string, src []byte, wantCases func(mu *mutation) bool
 			if wantCases(&m) {
 				r.addCase(name, msrc, &mdoc, res, &m)
 			}
+			if r.filter == nil && mu.Key != "" && (r.second2 || strings.HasPrefix(name, "synthetic/")) {
+				k2 := name + "\x00" + s.sec.name + "\x00" + mu.Kind
+				if mu.Kind == "foreign" && mu.Key != "zz-foreign-key" {
+					k2 = ""
+				}
+				if k2 != "" && !r.second[k2] {
+					r.second[k2] = true
+					r.filter = &m
+					r.sum.Dist["second-order-base:"+mu.Kind]++
+					r.base(fmt.Sprintf("%s+%s@%s", name, mu.Kind, s.sec.name), msrc, func(*mutation) bool { return false })
+					r.filter = nil
+				}
+			}
 		}
 	}
 }
@@ -986,9 +1011,10 @@ func main() {
 		os.Exit(doReplay(*replay))
 	}
 
-	r := &runner{sum: hx.NewSummary("C13"), unknownMsg: map[string]bool{}, nontrivial: map[string]bool{}, perSection: map[string]int{}}
+	r := &runner{sum: hx.NewSummary("C13"), unknownMsg: map[string]bool{}, nontrivial: map[string]bool{}, perSection: map[string]int{}, second: map[string]bool{}}
 	rng := hx.NewRng(*seed)
 	r.poolAll = *tier == "thorough"
+	r.second2 = *tier == "thorough"
 	if gs, _, err := extractFile(filepath.Join(*repo, "parse.go")); err == nil {
 		seenLab := map[string]bool{}
 		for _, g := range gs {
@@ -1229,7 +1255,7 @@ func doReplay(path string) int {
 		return 1
 	}
 	if strings.HasPrefix(f.Key, "non-ascii-duplicate|") {
-		r := &runner{sum: hx.NewSummary("C13"), unknownMsg: map[string]bool{}, nontrivial: map[string]bool{}, perSection: map[string]int{}}
+		r := &runner{sum: hx.NewSummary("C13"), unknownMsg: map[string]bool{}, nontrivial: map[string]bool{}, perSection: map[string]int{}, second: map[string]bool{}}
 		r.nonASCIIDuplicates()
 		for _, g := range r.fails {
 			fmt.Printf("REPRODUCED: %s %v\n%s", g.What, g.Detail, g.Original)
@@ -1243,7 +1269,7 @@ func doReplay(path string) int {
 	m := runParse([]byte(f.Mutant))
 	fmt.Printf("--- original\n%s--- diagnostics of the original (class, line, col)\n%+v\n", f.Original, o.diags)
 	fmt.Printf("--- mutant\n%s--- diagnostics of the mutant\n%+v\n", f.Mutant, m.diags)
-	r := &runner{sum: hx.NewSummary("C13"), unknownMsg: map[string]bool{}, nontrivial: map[string]bool{}, perSection: map[string]int{}}
+	r := &runner{sum: hx.NewSummary("C13"), unknownMsg: map[string]bool{}, nontrivial: map[string]bool{}, perSection: map[string]int{}, second: map[string]bool{}}
 	if f.Mutation != nil && f.Mutation.Kind == "foreign" {
 		r.pool = []string{f.Mutation.Key}
 		r.poolAll = true
